@@ -2,6 +2,7 @@ import Umya.Driver.Proto
 import Umya.Model.Annot
 import Umya.Driver.C06View
 import Umya.Driver.C06Codec
+import Umya.Driver.C06Comment
 namespace Umya.Driver.C06
 open Umya.Annot Umya.Coord Umya.Proto Umya.XmlEsc
 
@@ -127,6 +128,9 @@ def handle (st : St) (args : List String) : St × String :=
   | _ =>
     match Umya.Driver.C06Codec.handle args with
     | some r => (st, r)
-    | none => (st, "bad-op")
+    | none =>
+      match Umya.Driver.C06Comment.handle args with
+      | some r => (st, r)
+      | none => (st, "bad-op")
 
 end Umya.Driver.C06
